@@ -170,12 +170,20 @@ inline bool plan_effect(Model const& M, ModelTraits const& T, Op const& op, Effe
 			break;
 		}
 		case O_CTOR_MOVE: case O_CTOR_MOVE_ALLOC: {
-			if(T.static_arrays) return false;
+			if(T.static_arrays && op.kind != O_CTOR_MOVE) return false;
 			if(!slot_ok(D, op.b, T) || op.b == op.a || !M.at(D, op.b).alive) return false;
 			MArr const& b = M.at(D, op.b);
 			set_dims(a, D, b.n);
 			a.v     = b.v;
 			a.arena = op.kind == O_CTOR_MOVE ? b.arena : op.ar;
+			if(T.static_arrays) {  // a static_array cannot give its storage away: new storage, elements moved one by one
+				MArr& bs = tgt(1, D, op.b);
+				if(!T.trivial) bs.v.assign(bs.v.size(), -7777);
+				e.unspecified[1] = true;
+				e.elems = b.count();
+				var("static");
+				break;
+			}
 			if(D == 0) {  // a 0-D array has no empty state: the element is moved, the source keeps one (moved-from) element
 				MArr& bz = tgt(1, D, op.b);
 				if(!T.trivial) bz.v.assign(1, -7777);
